@@ -48,6 +48,48 @@ fn image_opts(p: &CooklangParser, input: &str) -> String {
     }
 }
 
+/// One `parse_with_options` with BOTH callbacks of `image_opts` against the model (`RV.parseRecipeRV`, operation
+/// `recipe_rv` of lean/CookModel/Driver/RefCheckValidator.lean): recipe, metadata mapping, servings and every
+/// diagnostic with its labels in report order; documents with and without front matter.
+fn both_case(ctx: &mut Ctx, p: &CooklangParser, input: &str, ext_bits: u32, conv: u8) {
+    use cooklang::analysis::{CheckOptions, CheckResult, ParseOptions};
+    use cooklang::parser::{Event, PullParser};
+    let Ok(first) = std::panic::catch_unwind(std::panic::AssertUnwindSafe(|| PullParser::new(input, Extensions::empty()).next().and_then(|e| match e { Event::YAMLFrontMatter(t) => Some(t.text().into_owned()), _ => None }))) else { return };
+    let (fm_arg, yaml_failed) = match first {
+        None => ("-".to_string(), false),
+        Some(yaml) => match serde_yaml::from_str::<serde_yaml::Mapping>(&yaml) {
+            Ok(m) => {
+                let whole = serde_yaml::Value::Mapping(m);
+                if crate::fm::has_tag(&whole) || crate::fm::huge_exp(&whole) { ctx.count("mode-g-both:skipped (tagged value / huge exponent in front matter)"); return; }
+                (format!("M{}", crate::fm::enc_yaml(&whole)), false)
+            }
+            Err(e) => (format!("E{}", e.location().map(|l| l.index().to_string()).unwrap_or("~".into())), true),
+        },
+    };
+    let opts = ParseOptions {
+        recipe_ref_check: Some(Box::new(|name: &str| if name.contains('e') || name.contains('a') { CheckResult::Error(vec!["no such recipe".into()]) } else { CheckResult::Warning(vec!["unchecked".into()]) })),
+        metadata_validator: Some(Box::new(|k: &serde_yaml::Value, _v: &serde_yaml::Value, _o: &mut CheckOptions| if k.as_str().map_or(false, |k| k.starts_with('z')) { CheckResult::Warning(vec!["z key".into()]) } else { CheckResult::Ok })),
+    };
+    let r = std::panic::catch_unwind(std::panic::AssertUnwindSafe(|| p.parse_with_options(input, opts)));
+    let (mut refs, mut vals) = (0, 0);
+    let reply = match &r {
+        Err(_) => "PANIC".to_string(),
+        Ok(res) => {
+            for d in res.report().iter() { match diag_kind(d).as_str() { "recipe-not-found" => refs += 1, "metadata-validator" => vals += 1, _ => {} } }
+            let dstr = crate::fm::r_report(res.report(), yaml_failed);
+            match res.output() {
+                None => format!("NOOUT {dstr}"),
+                Some(rec) => {
+                    let servings = match rec.servings() { Some(a) => format!("[{}]", a.iter().map(|x| x.to_string()).collect::<Vec<_>>().join(", ")), None => "-".into() };
+                    format!("OUT {} {} servings={servings} {dstr}", r_recipe(rec, false), crate::fm::r_meta(&rec.metadata.map))
+                }
+            }
+        }
+    };
+    ctx.count(&format!("mode-g-both:{}:ref-diags={}:validator-diags={}", if fm_arg == "-" { "no-front-matter" } else { "front-matter" }, refs.min(2), vals.min(2)));
+    ctx.case(format!("recipe_rv {ext_bits} {conv} {fm_arg} {}", enc_text(input)), reply, refs + vals > 0, format!("parse_with_options with both callbacks: ext={ext_bits} conv={conv} input={input:?}"));
+}
+
 /// a tracing subscriber that enables every level and target and throws everything away: ambient process state a parse
 /// must not depend on
 struct AllOn;
@@ -270,6 +312,8 @@ pub fn run(ctx: &mut Ctx) {
                 let _ = image(&shared, "@bad{1/0}");
             }
             ctx.count_n("mode-g1-parse-with-options", sel.len() as u64);
+            // (g3) the same call against the model with both callbacks threaded through one fold (`RV.parseRecipeRV`)
+            for s in sel.iter() { both_case(ctx, &shared, s, ext_bits, conv); }
             for (s, (want_opts, want)) in sel.iter().zip(reference.iter()) {
                 ctx.eval("", false);
                 let (got, got_opts) = tracing::subscriber::with_default(AllOn, || (image(&shared, s), image_opts(&shared, s)));
